@@ -76,7 +76,11 @@ impl<P: Compressable + FromUniformBytes + Clone + Precomputable> RangeStatement<
 /// Overwrite secrets with null bytes when they go out of scope.
 impl<P: Compressable + Precomputable> Drop for RangeStatement<P> {
     fn drop(&mut self) {
-        self.seed_nonce.zeroize();
+        // Zeroize the seed in place. `Option::zeroize` ends by writing a `None` whose payload bytes are unspecified,
+        // so stale stack contents (which may be a copy of this very seed) can end up in the statement's memory.
+        if let Some(seed_nonce) = self.seed_nonce.as_mut() {
+            seed_nonce.zeroize();
+        }
     }
 }
 
